@@ -578,12 +578,8 @@ func c17Deletion(r *Report) {
 		if !ok {
 			return
 		}
-		var fn *ssa.Function
-		if mc, ok := g.Call.Value.(*ssa.MakeClosure); ok {
-			fn, _ = mc.Fn.(*ssa.Function)
-		} else if f2, ok := g.Call.Value.(*ssa.Function); ok {
-			fn = f2
-		}
+		// a func literal or a named function/method started as a goroutine
+		fn := g.Call.StaticCallee()
 		if fn == nil {
 			return
 		}
@@ -596,63 +592,59 @@ func c17Deletion(r *Report) {
 		return
 	}
 	r.Fn(wrapper)
-	var d *ssa.Defer
 	var runCall ssa.Instruction
 	allInstrs(wrapper, func(in ssa.Instruction) {
-		if x, ok := in.(*ssa.Defer); ok {
-			d = x
-		}
 		if calleeOf(in) == run {
 			if _, isDefer := in.(*ssa.Defer); !isDefer {
 				runCall = in
 			}
 		}
 	})
-	if d == nil || runCall == nil {
+	acts := exitActions(wrapper)
+	if len(acts) == 0 || runCall == nil {
 		r.Fail("R4", "AddTorrent/wrapper-defer", wrapper.Pos(), "the wrapper goroutine has no deferred cleanup")
 		return
 	}
-	r.Check(instrDominates(d, runCall), "R4", "AddTorrent/wrapper/defer-before-run", d.Pos(), "cleanup is registered before the loop starts", "the cleanup defer is registered after t.run: a panic or exit of run skips it")
-	df := deferredFunc(d)
-	if df == nil {
-		r.Undecided("R4", "AddTorrent/wrapper/deferred", d.Pos(), "cannot resolve the deferred function")
-		return
-	}
-	r.Fn(df)
-	var delCall, closeCall ssa.Instruction
-	allInstrs(df, func(in ssa.Instruction) {
-		if calleeOf(in) == delF {
-			delCall = in
+	// the wrapper's exit actions, in execution order: del(hash) … close(Deleted)
+	delAt, closeAt := -1, -1
+	var delAct, closeAct exitAct
+	for i, a := range acts {
+		if a.Callee == delF && delAt < 0 {
+			delAt, delAct = i, a
 		}
-		if c, ok := in.(*ssa.Call); ok {
-			if b, ok := c.Call.Value.(*ssa.Builtin); ok && b.Name() == "close" {
-				if cs := chanSourceOf(c.Call.Args[0]); cs.Field == deleted {
-					closeCall = in
-				}
+		if a.Close != nil && closeAt < 0 {
+			if cs := chanSourceOf(a.Close); cs.Field == deleted {
+				closeAt, closeAct = i, a
 			}
 		}
-	})
-	r.Check(delCall != nil, "R4", "AddTorrent/wrapper/unlist", d.Pos(), "the wrapper's exit removes the torrent from the table", "the wrapper's exit no longer calls del(): a deleted torrent stays listed")
-	r.Check(closeCall != nil, "R4", "AddTorrent/wrapper/close-Deleted", d.Pos(), "the wrapper's exit closes Deleted", "the wrapper's exit no longer closes Deleted: Kill waits forever")
-	if delCall != nil && closeCall != nil {
-		r.Check(instrDominates(delCall, closeCall), "R4", "AddTorrent/wrapper/unlist-before-Deleted", closeCall.Pos(), "the torrent is unlisted before Deleted is closed", "Deleted is closed before the torrent is unlisted: Kill can return while the torrent is still listed")
+		if a.Callee != nil && a.Callee.Parent() != nil {
+			r.Fn(a.Callee)
+		}
+	}
+	early := true
+	for _, a := range []exitAct{delAct, closeAct} {
+		if a.Defer != nil && !instrDominates(a.Defer, runCall) {
+			early = false
+		}
+	}
+	r.Check(early, "R4", "AddTorrent/wrapper/defer-before-run", wrapper.Pos(), "cleanup is registered before the loop starts", "the cleanup defer is registered after t.run: a panic or exit of run skips it")
+	r.Check(delAt >= 0, "R4", "AddTorrent/wrapper/unlist", wrapper.Pos(), "the wrapper's exit removes the torrent from the table", "the wrapper's exit no longer calls del(): a deleted torrent stays listed")
+	r.Check(closeAt >= 0, "R4", "AddTorrent/wrapper/close-Deleted", wrapper.Pos(), "the wrapper's exit closes Deleted", "the wrapper's exit no longer closes Deleted: Kill waits forever")
+	if delAt >= 0 && closeAt >= 0 {
+		r.Check(delAt < closeAt, "R4", "AddTorrent/wrapper/unlist-before-Deleted", closeAct.Instr.Pos(), "the torrent is unlisted before Deleted is closed", "Deleted is closed before the torrent is unlisted: Kill can return while the torrent is still listed")
 	}
 	// run's exit defer frees the store
 	r.Fn(run)
 	piecesDel := p.Func("tor/piece", "Pieces.Del")
 	if r.Anchor("R4", "piece.(*Pieces).Del", piecesDel != nil) {
 		ok := false
-		allInstrs(run, func(in ssa.Instruction) {
-			dd, isd := in.(*ssa.Defer)
-			if !isd {
-				return
-			}
-			if f := deferredFunc(dd); f != nil && anyInstr(f, func(i ssa.Instruction) bool { return calleeOf(i) == piecesDel }) != nil {
-				if dom, _ := deferDominatesReturns(dd); dom {
+		for _, a := range exitActions(run) {
+			if a.Callee == piecesDel {
+				if dom, _ := deferDominatesReturns(a.Defer); dom {
 					ok = true
 				}
 			}
-		})
+		}
 		r.Check(ok, "R4", "Torrent.run/defer-Pieces.Del", run.Pos(), "run's exit defer frees the piece store on every exit", "no deferred function of run that dominates every return calls Pieces.Del: a deleted torrent keeps its memory")
 	}
 }
